@@ -32,8 +32,8 @@ BIAS_REMOVE = 0
 def trial_cfg(r, seed, big=False):
     return {"seed": seed, "n_watch": r.randint(1, 3), "n_handlers": r.randint(1, 3), "n_api_threads": r.choice([0, 1, 2, 2, 3]),
             "n_ops": r.randint(10, 40), "n_events": r.randint(30, 80 if not big else 200), "reentrant": r.choice([0, 2, 5]),
-            "reentrant_p": r.choice([0.03, 0.1]), "bias_remove": BIAS_REMOVE, "dups": r.random() < 0.15,
-            "fail_at": sorted({r.randrange(2, 40) for _ in range(r.choice([0, 0, 2, 4]))}), "double_stop": r.random() < 0.3}
+            "reentrant_p": r.choice([0.03, 0.1]), "bias_remove": BIAS_REMOVE, "dups": r.random() < 0.15, "twins": r.random() < 0.3,
+            "fail_at": sorted({r.randrange(2, 40) for _ in range(r.choice([0, 0, 2, 4]))}), "double_stop": r.random() < 0.3, "stop_sched": r.random() < 0.5}
 
 
 def account(b: Batch, t, res, out, prop, cfg, hold_plan, mode):
